@@ -4,6 +4,7 @@ CONSTANTS
   MaxEdges = 9
   FailKinds = {}
   AllowDangling = FALSE
+  MaxKind = 0
   MaxMark = 2
   MaxRerun = 0
   Runs = 2
